@@ -4,7 +4,7 @@
 //! descriptors, comments); write(M) is byte-identical for k insertion orders of the same content;
 //! write(read(write(M))) == write(M); reading a Tiny v2 text emitted by the harness' own emitter in an arbitrary
 //! sibling order yields the emitted set (never merges, loses or re-parents an entry); key/name invariant after read.
-//! Not judged: the file-level comment; names with white space; any particular sort order.
+//! Not judged: the file-level comment; names containing TAB / LF / CR (blank characters in non-source names ARE exercised); any particular sort order.
 use common::{par::*, report::{finish, Meta}, *};
 use maps::{cmp, gen, CommentClass, GenCfg, Ins, Maps};
 use quill::tiny_v2;
@@ -106,8 +106,24 @@ fn nontrivial(m: &Maps) -> bool {
     c + f + me + p >= 3 && special
 }
 
+/// Names made of (or containing) blank characters other than TAB / LF / CR: legal JVM names the tab-separated format can
+/// carry. Only non-source cells are rewritten (source names are keys). Returns how many cells were changed.
+fn blank_names(rng: &mut Rng, m: &mut Maps) -> usize {
+    const BLANKS: [&str; 8] = [" ", "  ", "\u{3000}", "\u{a0}", "\u{2003}\u{2009}", "a b", " lead", "trail "];
+    let mut n = 0;
+    let mut touch = |rng: &mut Rng, row: &mut maps::model::Row| { for cell in row.iter_mut().skip(1) { if cell.is_some() && rng.chance(1, 5) { *cell = Some(rng.pick(&BLANKS).to_string()); n += 1; } } };
+    for c in m.classes.values_mut() {
+        // class names: a blank simple name in a package, so that the name stays a valid class name
+        for cell in c.names.iter_mut().skip(1) { if cell.is_some() && rng.chance(1, 8) { *cell = Some(format!("pkg/{}", rng.pick(&BLANKS))); } }
+        for f in c.fields.values_mut() { touch(rng, &mut f.names); }
+        for me in c.methods.values_mut() { touch(rng, &mut me.names); for p in me.params.values_mut() { touch(rng, &mut p.names); } }
+    }
+    n
+}
+
 fn case<const N: usize>(rng: &mut Rng, rep: &mut Report, cfg: &GenCfg, hostile: bool) {
-    let m = gen::gen_maps(rng, &cfg.clone().with_n(N));
+    let mut m = gen::gen_maps(rng, &cfg.clone().with_n(N));
+    if !hostile && rng.chance(1, 6) { let n = blank_names(rng, &mut m); if n > 0 { rep.count("sets.with_blank_names"); rep.add("names.blank_or_with_blanks", n as u64); } }
     rep.eval();
     coverage(rep, &m);
     if hostile {
@@ -242,7 +258,7 @@ fn main() {
     let mut meta = Meta::new("exploration",
         "sets drawn by maps::gen (2-4 namespaces, partial rows, nested/unicode/placeholder names, rich comments); each written from 4 insertion orders, read back, written again; \
          non-trivial = at least 3 entries and (a comment, an absent non-source cell or a nested source name); distinct = structural fingerprint (shape, name/comment/descriptor classes)")
-        .assume("names contain no TAB/LF/CR/space or other white space (the text format cannot carry them)")
+        .assume("names contain no TAB / LF / CR (the text format cannot carry them); other blank characters (space, NBSP, U+3000, ...) occur in non-source names of a sixth of the sets, source names stay free of blanks")
         .assume("the file-level comment is not part of the judged content")
         .assume("comments of the main workload contain no backslash, TAB or CR; those are exercised by the separate 'hostile' workload");
     if ctx.replay.is_none() {
@@ -253,5 +269,6 @@ fn main() {
             meta.oblige(format!("at least one case with {k}"), rep.get(k) > 0);
         }
     }
+    if ctx.replay.is_none() { meta.oblige("sets with blank-only / blank-containing non-source names", rep.get("sets.with_blank_names") >= 50); }
     std::process::exit(finish(&ctx, rep, meta));
 }
